@@ -2,6 +2,7 @@
   Kernel tie: `Pool.AvailableAmount` (x/reward/types/pool.go) = the model's `Pool.avail`.
 -/
 import Sge.Gen.Kernels
+import SgeProofs.Lemmas.KernelsTie
 import Sge.Reward
 namespace Sge.KernelsTie
 open Sge Sge.Reward Sge.Gen.Kernels
@@ -11,7 +12,7 @@ theorem krn_tie_PoolAvail (p : Pool) :
     reward_Pool_AvailableAmount p.total p.spent p.withdrawn = p.avail := by
   first
     | rfl
-    | (unfold reward_Pool_AvailableAmount Pool.avail; omega)
+    | (unfold reward_Pool_AvailableAmount Pool.avail; krn_close)
 
 example : reward_Pool_AvailableAmount 100 20 30 = 50 := by decide +kernel
 
